@@ -317,6 +317,16 @@ findTypeLoop:
 			case *Gpos1_1, *Gpos1_2, *Gpos2_1, *Gpos2_2, *Gpos3_1, *Gpos4_1, *Gpos5_1, *Gpos6_1:
 				extLookupType = gposExtensionLookupType
 				break findTypeLoop
+			case *SeqContext1, *SeqContext2, *SeqContext3,
+				*ChainedSeqContext1, *ChainedSeqContext2, *ChainedSeqContext3:
+				// The contextual subtables are shared between GSUB (lookup
+				// types 5 and 6) and GPOS (lookup types 7 and 8).
+				if l.Meta.LookupType <= 6 {
+					extLookupType = gsubExtensionLookupType
+				} else {
+					extLookupType = gposExtensionLookupType
+				}
+				break findTypeLoop
 			}
 		}
 	}
